@@ -20,7 +20,8 @@ var foldableBuiltins = []string{"int", "uint", "float", "char", "string", "bool"
 // shadowForms returns scripts in which NAME is bound to a user function `f` (passed as
 // argument 0 / global) by each binding form, and then called like the builtin.
 func shadowForms(name, call string) []string {
-	use := "return " + strings.ReplaceAll(call, "NAME", name)
+	cl := strings.ReplaceAll(call, "NAME", name)
+	use := "return " + cl
 	return []string{
 		"param f; " + name + " := f; " + use,
 		"param f; var " + name + " = f; " + use,
@@ -43,6 +44,17 @@ func shadowForms(name, call string) []string {
 		"param f; x := 1; { " + name + " := f; x = 2 }; " + use, // block-scoped: after the block NAME is the builtin again
 		"param f; if true { " + name + " := f }; " + use,
 		"param f; g := func(" + name + ") { return 1 }; " + use,
+		// a literal const in scope makes the compiler re-run the optimizer on each binary/unary
+		// expression with the live symbol table (string + anything is always defined)
+		"param f; const c = \"k\"; " + name + " := f; return c + " + cl,
+		"param f; const c = \"k\"; " + name + " := f; g := func() { return c + " + cl + " }; return g()",
+		"param f; const c = \"k\"; a := c + " + cl + "; if a { " + name + " := f; return c + " + cl + " }",
+		"param f; const c = \"k\"; a := c + " + cl + "; for i := 0; i < 1; i++ { " + name + " := f; return c + " + cl + " }",
+		"param f; const c = \"k\"; a := c + " + cl + "; try { " + name + " := f; return c + " + cl + " } finally { }",
+		"param f; const c = \"k\"; g := func(" + name + ") { return func() { return c + " + cl + " } }; return g(f)()",
+		"param f; const c = \"k\"; " + name + " := f; g := func() { y := 1; return func() { return c + " + cl + " } }; return g()()",
+		"param f; const c = \"k\"; " + name + " := f; g := func() { y := " + cl + "; return func() { return c + " + cl + " } }; return g()()",
+		"param f; const c = \"k\"; g := func() { return c + " + cl + " }; " + name + " := f; return [g(), c + " + cl + "]",
 	}
 }
 
@@ -50,7 +62,7 @@ func init() {
 	register(&Stream{
 		Name: "optshadow",
 		Run: func(c *Ctx) {
-			c.Rule("binding forms (21) x foldable builtins (18) x call shapes (constant and non-constant operands) x optimizer budgets {default,1,2,5}: optimized vs unoptimized outcome on the implementation; every case is non-trivial; distinct = (form, builtin, call shape)")
+			c.Rule("binding forms (30, incl. const-in-scope and fold-then-shadow sequences) x foldable builtins (18) x call shapes (constant and non-constant operands) x optimizer budgets {default,1,2,5}: optimized vs unoptimized outcome on the implementation; every case is non-trivial; distinct = (form, builtin, call shape)")
 			f := &ugo.Function{Name: "f", Value: func(args ...ugo.Object) (ugo.Object, error) {
 				return ugo.String(fmt.Sprintf("F%d", len(args))), nil
 			}}
@@ -63,10 +75,11 @@ func init() {
 						bc0, err0 := ugo.Compile([]byte(src), ugo.CompilerOptions{NoOptimize: true})
 						var out0 string
 						if err0 != nil {
-							out0 = "compile-error"
-						} else {
-							out0 = runPlain(bc0, ugo.Map{b: f}, []ugo.Object{f})
+							// the property quantifies over scripts that compile both ways
+							c.Count("noopt:compile-error")
+							continue
 						}
+						out0 = runPlain(bc0, ugo.Map{b: f}, []ugo.Object{f})
 						c.Count("noopt:" + strings.SplitN(strings.TrimPrefix(out0, "out="), " ", 2)[0])
 						for _, lim := range []int{0, 1, 2, 5} {
 							bc1, err1 := ugo.Compile([]byte(src), ugo.CompilerOptions{OptimizerLimit: lim})
@@ -79,7 +92,7 @@ func init() {
 									c.Count("opt-refused")
 									continue
 								}
-								out1 = "compile-error: " + firstLine(err1.Error())
+								out1 = "compile-error: " + semFirstLine(err1.Error())
 							} else {
 								out1 = runPlain(bc1, ugo.Map{b: f}, []ugo.Object{f})
 							}
